@@ -38,6 +38,9 @@ const appExc = "com.example.ApplicationException"
 func c02Run(c c02Case) Outcome {
 	var o Outcome
 	res := inBubble(theT, func() { o = c02RunInBubble(c) })
+	if o, stuck := stuckVerdict(res); stuck {
+		return o
+	}
 	if res.Deadlock != "" && !exitLeak(res.Deadlock) {
 		return viol("deadlock", "bubble deadlocked: %s\n%s", res.Deadlock, bubbleStacks(res.Stack))
 	}
